@@ -272,6 +272,10 @@ func Gen(prop, tier string, seed, run uint64) Plan {
 		return l
 	}
 	invalid := prop == "C11"
+	// lastDef/prevDef: a tag deleted and re-added (or updated and updated back)
+	// with the *same* definition while a job for it is in flight passes every
+	// "definition unchanged" test of the completion handlers
+	lastDef, prevDef := map[string]string{}, map[string]string{}
 	for i := 0; i < nMut; i++ {
 		name := tagNames[r.IntN(len(tagNames))]
 		isMark := strings.HasPrefix(name, "mark/") || strings.HasPrefix(name, "generated/")
@@ -295,6 +299,12 @@ func Gen(prop, tier string, seed, run uint64) Plan {
 			if invalid && r.IntN(8) == 0 {
 				nm = []string{"tag/", "foo/bar", "noprefix", "mark/", "tag/a/b", ""}[r.IntN(6)]
 			}
+			if d, ok := lastDef[name]; ok && nm == name && !exists[name] && r.IntN(2) == 0 {
+				def = d
+			}
+			if nm == name {
+				lastDef[name] = def
+			}
 			mutOps = append(mutOps, Op{C: CMut, K: "AddTag", Name: nm, Color: colors[r.IntN(3)], Def: def})
 			if nm == name {
 				exists[name] = true // may fail at run time; harmless
@@ -313,6 +323,13 @@ func Gen(prop, tier string, seed, run uint64) Plan {
 					def = "tag:nonexistent"
 				}
 			}
+			if d, ok := prevDef[name]; ok && r.IntN(4) == 0 {
+				def = d
+			}
+			if d, ok := lastDef[name]; ok {
+				prevDef[name] = d
+			}
+			lastDef[name] = def
 			mutOps = append(mutOps, Op{C: CMut, K: "UpdQuery", Name: name, Def: def})
 		case k < 10:
 			mutOps = append(mutOps, Op{C: CMut, K: "UpdColor", Name: name, Color: colors[r.IntN(3)]})
@@ -359,6 +376,26 @@ func Gen(prop, tier string, seed, run uint64) Plan {
 			}
 		}
 	}
+	if (prop == "C11" || prop == "C06" || prop == "C13") && r.IntN(3) == 0 {
+		// identity replacement: a tag is deleted and re-created with the same
+		// definition (the object changes, nothing a "definition unchanged" test
+		// looks at does) and another tag starts referencing the new object; placed
+		// anywhere, so that it also lands between launch and completion of a job
+		for _, n := range tagNames[r.IntN(3):] {
+			d, ok := lastDef[n]
+			if !ok || !exists[n] || strings.HasPrefix(n, "mark/") || strings.HasPrefix(n, "generated/") || n == "tag/c" {
+				continue
+			}
+			seq := []Op{{C: CMut, K: "DelTag", Name: n}, {C: CMut, K: "AddTag", Name: n, Color: colors[r.IntN(3)], Def: d},
+				{C: CMut, K: "AddTag", Name: "tag/c", Color: colors[r.IntN(3)], Def: refName(n) + " " + []string{"sport:80,443", "protocol:tcp", "cbytes:1:"}[r.IntN(3)]}}
+			at := len(mutOps) / 2
+			if at < len(mutOps) {
+				at += r.IntN(len(mutOps) - at)
+			}
+			mutOps = append(mutOps[:at], append(seq, mutOps[at:]...)...)
+			break
+		}
+	}
 	if reversed && nf > 1 {
 		// endpoint filters decided before the earlier capture arrives
 		pre := []Op{
@@ -372,6 +409,14 @@ func Gen(prop, tier string, seed, run uint64) Plan {
 		def := []string{"id:0:", "cbytes:1:", "sport:80,443,1337,8080,31337,53", "protocol:tcp", "sbytes:0:"}[r.IntN(5)]
 		name := []string{"service/s", "service/t"}[r.IntN(2)]
 		pre := []Op{{C: CMut, K: "AddTag", Name: name, Color: "#123456", Def: def}, {C: CMut, K: "SetConv", Name: name, Convs: []string{p.Converters[r.IntN(len(p.Converters))]}}}
+		if prop == "C06" || prop == "C16" || r.IntN(3) == 0 {
+			// and a tag that searches the converter's output, so that converter
+			// completions, resets and on-demand conversions change a tag's answer
+			// while tagging jobs for it are in flight
+			c := p.Converters[r.IntN(len(p.Converters))]
+			rd := []string{fmt.Sprintf("data.%s:\"vconv\"", c), fmt.Sprintf("cdata.%s:\"%s\"", c, strings.ToUpper(netsim.Markers[r.IntN(len(netsim.Markers))])), fmt.Sprintf("-data.%s:\"vconv\"", c), fmt.Sprintf("sdata.%s:\"[A-Z]\" sport:80,443,8080", c)}[r.IntN(4)]
+			pre = append(pre, Op{C: CMut, K: "AddTag", Name: []string{"tag/a", "tag/b"}[r.IntN(2)], Color: "#123456", Def: rd})
+		}
 		at := r.IntN(1 + len(mutOps)/3)
 		mutOps = append(mutOps[:at], append(pre, mutOps[at:]...)...)
 	}
